@@ -23,3 +23,5 @@ def run(chk, tier):
         A.tuple_order(chk, F, 'R01.4.tuple', cfg)
         E.method_isolation(chk, F, 'R01.5', cfg, paths)
         A.terminal_clauses_use_own_info(chk, F, 'R01.5', cfg)
+        from props import ctor
+        ctor.builder_constructors(chk, F, 'R01.0', cfg)
